@@ -132,12 +132,20 @@ func main() {
 	for sh := 0; sh < 3; sh++ {
 		tasks = append(tasks, task{fmt.Sprintf("blob/%d", sh), func(h *H) { h.phaseBlob(sh, 3) }})
 	}
-	tasks = append(tasks, task{"records", func(h *H) { h.phaseRecords() }}, task{"chain", func(h *H) { h.phaseChain() }},
-		task{"utf8", func(h *H) { h.phaseUTF8() }})
+	for sh := 0; sh < 3; sh++ {
+		tasks = append(tasks, task{fmt.Sprintf("records/%d", sh), func(h *H) { h.phaseRecords(sh, 3) }})
+	}
+	for sh := 0; sh < 2; sh++ {
+		tasks = append(tasks, task{fmt.Sprintf("chain/%d", sh), func(h *H) { h.phaseChain(sh, 2) }})
+	}
+	tasks = append(tasks,
+		task{"utf8", func(h *H) { h.phaseUTF8() }}, task{"limits/0", func(h *H) { h.phaseLimits(0, 4) }},
+		task{"limits/1", func(h *H) { h.phaseLimits(1, 4) }}, task{"limits/2", func(h *H) { h.phaseLimits(2, 4) }},
+		task{"limits/3", func(h *H) { h.phaseLimits(3, 4) }})
 	var mu sync.Mutex
 	timings := map[string]float64{}
 	var wg sync.WaitGroup
-	sem := make(chan struct{}, 12)
+	sem := make(chan struct{}, 16)
 	for _, tk := range tasks {
 		wg.Add(1)
 		go func() {
